@@ -160,3 +160,73 @@ def side_names(ctx, f, sa=None):
     ch = "changed" if "changed" in params else None
     sy = "synced" if "synced" in params else None
     return ch, sy
+
+
+def disjunctions(facts):
+    """The compound literals of `facts` (disjunctions in negation normal form, see guards.nnf) as lists of disjunct texts."""
+    out = []
+    for (txt, pol) in facts:
+        if not pol:
+            continue
+        try:
+            e = ast.parse(txt, mode="eval").body
+        except SyntaxError:
+            continue
+        if isinstance(e, ast.BoolOp) and isinstance(e.op, ast.Or):
+            out.append([ast.unparse(v) for v in e.values])
+    return out
+
+
+def with_private_helpers(ctx, f, depth: int = 2):
+    """f plus the private methods of its class that f calls on self and that nothing else calls (an extract-method refactoring
+    moves statements there): rules about 'what f does' read these bodies as part of f."""
+    out = [f]
+    frontier = [f]
+    for _ in range(depth):
+        nxt = []
+        for g in frontier:
+            if g.cls is None or not getattr(g, "self_name", None):
+                continue
+            for n in ctx.own_nodes(g):
+                if isinstance(n, ast.Call) and isinstance(n.func, ast.Attribute) and isinstance(n.func.value, ast.Name) and n.func.value.id == g.self_name \
+                        and n.func.attr.startswith("_") and not n.func.attr.endswith("__"):
+                    h = g.cls.lookup(n.func.attr)
+                    if h is not None and h not in out and {s.func.qname for s in ctx.callers(h)} <= {x.qname for x in out}:
+                        out.append(h)
+                        nxt.append(h)
+        frontier = nxt
+    return out
+
+
+def unalias(ctx, f, e):
+    """`provider = self.providers[side]` hoisted into a local: the expression a plain local stands for (single assignment, attribute /
+    subscript chain without calls); anything else is returned unchanged."""
+    if isinstance(e, ast.Name):
+        defs = [n.value for n in ctx.own_nodes(f) if isinstance(n, (ast.Assign, ast.AnnAssign)) and getattr(n, "value", None) is not None
+                and any(isinstance(t, ast.Name) and t.id == e.id for t in (n.targets if isinstance(n, ast.Assign) else [n.target]))]
+        if len(defs) == 1 and all(isinstance(x, (ast.Attribute, ast.Subscript, ast.Name, ast.Load, ast.Constant)) for x in ast.walk(defs[0])):
+            return defs[0]
+    return e
+
+
+def method_calls(ctx, f, recv_pattern: str, method: str):
+    """Calls `<recv>.<method>(...)` in f where <recv> matches the pattern directly or through a hoisted local alias."""
+    out = []
+    for n in ctx.own_nodes(f):
+        if isinstance(n, ast.Call) and isinstance(n.func, ast.Attribute) and n.func.attr == method and pat.match(recv_pattern, unalias(ctx, f, n.func.value)) is not None:
+            out.append(n)
+    return out
+
+
+def test_is(n, pattern: str):
+    """Does the CFG test node evaluate the pattern's condition?  Both are compared in negation normal form, so a De Morgan respelling of the
+    source matches; returns +1 when the test IS the condition, -1 when it is its negation (true and false edges swapped), 0 otherwise."""
+    from .guards import nnf
+    if n.kind != "test":
+        return 0
+    p = pat.compile_pat(pattern)
+    if pat.match(nnf(p), nnf(n.ast)) is not None:
+        return 1
+    if pat.match(nnf(p, False), nnf(n.ast)) is not None:
+        return -1
+    return 0
